@@ -16,6 +16,7 @@ the *sum* of all sizes rather than on each size; `SmallObject` demands ELF64.
 -/
 import ElfioVerif.Props.C04
 import ElfioVerif.Lemmas.LayoutSmall
+import ElfioVerif.Lemmas.LayoutSmall2
 import ElfioVerif.Props.Compose2
 namespace ElfioVerif.C04
 open Gen
@@ -111,5 +112,62 @@ def SmallAddrs (o : Obj) : Prop :=
 /-- open: the closed-form version of `Compose.noWrap64InB` -/
 def NoWrap64SmallStatement : Prop :=
   ∀ (o : Obj) (hd : Bytes), SmallObject o → SmallAddrs o → Compose.noWrap64InB o hd = true
+
+/-! ### the open statement above is false as stated; the section half with corrected bounds -/
+
+/-- an SHT_NULL section with a stale offset (1000) that is the first member of two segments: the
+    second segment takes `seg_start_pos = 1000` from it, beyond the cursor, and the address
+    `vaddr + cursor − seg_start_pos` the writer assigns to the next member wraps -/
+def exNullFirst : Obj :=
+  { cls := .c64, enc := .lsb, hdr := some exHdr,
+    secs := [ { SecBuf.fresh .c64 0 with index := 0 },
+              { SecBuf.fresh .c64 0 with index := 1, offset := 1000 },
+              { SecBuf.fresh .c64 1 with index := 2, size := 1000, addrAlign := 1, flags := 2 },
+              { SecBuf.fresh .c64 1 with index := 3, size := 8, addrAlign := 1, flags := 2 } ],
+    segs := [ { stype := 1, vaddr := 0, align := 1, secs := [1, 3], index := 0 },
+              { stype := 1, vaddr := 0, align := 1, secs := [1, 2], index := 1 } ] }
+
+/-- `SmallAddrs` is too weak: `NoWrap64SmallStatement` does not hold (witness `exNullFirst`).  The
+    corrected bounds `SmallAddrs2` (Lemmas/LayoutSmall2.lean) add: a section with index 0 or of type
+    SHT_NULL has offset 0. -/
+theorem noWrap64SmallStatement_false : ¬ NoWrap64SmallStatement := by
+  intro h
+  have := h exNullFirst exHdr (by decide) (by unfold SmallAddrs; decide)
+  revert this
+  decide
+
+theorem smallAddrs2_preSave (o : Obj) (ha : SmallAddrs2 o) : SmallAddrs2 (preSave o) := by
+  obtain ⟨hsa, hga⟩ := ha
+  have hh := preSave_hdr o
+  refine ⟨?_, hga⟩
+  intro s' hs'
+  obtain ⟨k, hk⟩ := List.getElem?_of_mem hs'
+  obtain ⟨s, hs0, he⟩ := hdrOf_getElem? hh k s' hk
+  simp only [hdrOf, Prod.mk.injEq] at he
+  rw [← he.2.2.2.2.1, ← he.1, ← he.2.2.2.1, ← he.2.2.1]
+  exact hsa s (List.mem_of_getElem? hs0)
+
+/-- **Section half of `NoWrap64` from closed-form bounds.**  After a successful `save` of a small
+    object with small addresses, `addr + size` and `offset + size` of every section are below `2^64`. -/
+theorem save_sections_noWrap_small (o : Obj) (os : OStream) (r : SaveRes) (hdr : Bytes)
+    (hs : save o os = .ok r) (hok : r.ok = true) (hh : o.hdr = some hdr)
+    (hsm : SmallObject o) (ha : SmallAddrs2 o) :
+    ∀ b ∈ r.obj.secs, b.addr.toNat + b.size.toNat < 18446744073709551616 ∧
+      b.offset.toNat + b.size.toNat < 18446744073709551616 := by
+  obtain ⟨res, hl, -, -, he⟩ := save_secs_hdr o os r hdr hs hok hh
+  intro b hb
+  obtain ⟨k, hk⟩ := List.getElem?_of_mem hb
+  obtain ⟨s, hs0, hq⟩ := hdrOf_getElem? he k b hk
+  have := smallObject_sections_noWrap (preSave o) hdr res hl (smallObject_preSave o hsm)
+    (smallAddrs2_preSave o ha) s (List.mem_of_getElem? hs0)
+  simp only [hdrOf, Prod.mk.injEq] at hq
+  rw [← hq.2.2.2.2.1, ← hq.1, ← hq.2.1]
+  exact this
+
+/-- `exObj` meets the hypotheses (its only index-0 / SHT_NULL section has offset 0) -/
+example : SmallObject exObj ∧ SmallAddrs2 exObj := by
+  refine ⟨by decide, ?_⟩
+  unfold SmallAddrs2
+  decide
 
 end ElfioVerif.C04
